@@ -13,7 +13,8 @@ Main theorem `C09_pipeline_no_panic`: for every well-formed configuration (`CfgW
 `ConfigFile::new` guarantees — locale list not empty, no duplicate locale or namespace) and **every**
 file content, the only `panic` outcomes of the model are its two artefacts: `"fuel"` (the model's
 constant recursion fuel, 10^6) and `"oracle: plural category missing"` (the finite table standing for
-ICU4X). Every real panic site — `resolve_foreign_keys_1`, `get_value_at: empty subkeys`,
+ICU4X). (The fallback walk of a foreign key, `Foreign.findDefining`, has its own small fuel `inherits.length + 2`;
+it is proved sufficient for every `inherits` table: `C09_fallback_walk_fuel_suffices`.) Every real panic site — `resolve_foreign_keys_1`, `get_value_at: empty subkeys`,
 `reduce: unresolved foreign key`, `reduce_into: unresolved foreign key`, `reduce: empty subkeys`,
 `get_keys_inner: unresolved foreign key`, `make_locale_value called twice`,
 `merge called twice on Subkeys`, `merge_1`, `check_locales_inner_1`, `decode` — is unreachable.
@@ -93,6 +94,22 @@ theorem C09_resolved_no_real_panic (inp : Pipeline.Input) (hcfg : CfgWF inp.cfg)
     Pipeline.resolved inp = .panic s → s = "fuel" ∨ s = "oracle: plural category missing" :=
   resolved_panic inp hcfg s
 
+/-- stage 3, the fallback walk of a foreign key (the loop of `resolve_foreign_key_inner`, model
+    `Foreign.findDefining`): the `inherits.length + 2` turns the model gives it always suffice, whatever the
+    `inherits` table (cycles, repeated keys, unknown locales) — the walk panics only if a lookup panics.
+    So the `"fuel"` of the main theorem is never the walk's. -/
+theorem C09_fallback_walk_fuel_suffices (w : World) (fb : Foreign.Fallbacks) (top : Str) (t : KeyPath) (p : String)
+    (h : Foreign.findDefining w fb (fb.inherits.length + 2) [] top t = .panic p) :
+    ∃ c, w.getValueAt c t = .panic p :=
+  nodeWalk_panic w fb top t p h
+
+/-- … and on a world whose lookups never panic (every world the pipeline builds: `InvG.np`) the walk does not
+    panic at all -/
+theorem C09_fallback_walk_no_panic (w : World) (hw : ∀ top t s, w.getValueAt top t ≠ .panic s)
+    (fb : Foreign.Fallbacks) (top : Str) (t : KeyPath) (p : String) :
+    Foreign.findDefining w fb (fb.inherits.length + 2) [] top t ≠ .panic p :=
+  nodeWalk_no_panic w hw fb top t p
+
 /-- stage 3, invariant: after `resolve_foreign_keys` every locale list is non-empty, every stored value
     is `Clean` (no unresolved foreign key, no emptied subkeys — what `reduce` needs), every key map
     is sorted, and no leaf contains a group of subkeys -/
@@ -166,5 +183,37 @@ private def f23Inp : Pipeline.Input :=
 
 example : ∀ s, Pipeline.run f23Inp = .panic s → s = "fuel" ∨ s = "oracle: plural category missing" :=
   C09_pipeline_no_panic f23Inp ⟨by simp [f23Inp], by decide, by intro l hl; simp [f23Inp] at hl⟩
+
+/-! the fallback walk on a cyclic `inherits` table (`ca → fr → ca`) and on a chain: `inherits.length + 2` turns are
+enough (and on the chain `fr → ca`, `ca` without entry, one turn less is not: the bound is tight) -/
+private def ca : Str := ['c', 'a']
+private def wEx : World := ⟨false, [⟨none, [.mk en en [(['k'], .lit (.str ['h', 'i'] none))] [] 0,
+  .mk fr fr [] [] 0, .mk ca ca [] [] 0]⟩]⟩
+private def fbCyc : Foreign.Fallbacks := ⟨en, [(ca, fr), (fr, ca)]⟩
+private def fbLine : Foreign.Fallbacks := ⟨en, [(fr, ca)]⟩
+private theorem getEn : wEx.getValueAt en ⟨none, [['k']]⟩ = .ok (some (.lit (.str ['h', 'i'] none))) := by
+  simp [World.getValueAt, wEx, World.locGet, List.find?, Loc.name, Loc.keys, AMap.get?, en]
+private theorem getFr : wEx.getValueAt fr ⟨none, [['k']]⟩ = .ok none := by
+  simp [World.getValueAt, wEx, World.locGet, List.find?, Loc.name, Loc.keys, AMap.get?, en, fr]
+private theorem getCa : wEx.getValueAt ca ⟨none, [['k']]⟩ = .ok none := by
+  simp [World.getValueAt, wEx, World.locGet, List.find?, Loc.name, Loc.keys, AMap.get?, en, fr, ca]
+private theorem nlCyc1 : Foreign.nextLocale fbCyc [fr] fr = ca := by simp [Foreign.nextLocale, fbCyc, AMap.get?, fr, ca]
+private theorem nlCyc2 : Foreign.nextLocale fbCyc [ca, fr] ca = en := by simp [Foreign.nextLocale, fbCyc, AMap.get?, fr, ca]
+private theorem nlLine1 : Foreign.nextLocale fbLine [fr] fr = ca := by simp [Foreign.nextLocale, fbLine, AMap.get?, fr, ca]
+private theorem nlLine2 : Foreign.nextLocale fbLine [ca, fr] ca = en := by simp [Foreign.nextLocale, fbLine, AMap.get?, fr, ca]
+private theorem frNe : (fr == en) = false := by decide
+private theorem caNe : (ca == en) = false := by decide
+
+example : Foreign.findDefining wEx fbCyc (fbCyc.inherits.length + 2) [] fr ⟨none, [['k']]⟩
+    = .ok (en, .lit (.str ['h', 'i'] none)) := by
+  simp [Foreign.findDefining, getEn, getFr, getCa, nlCyc1, nlCyc2, frNe, caNe, show fbCyc.default = en from rfl,
+    show fbCyc.inherits.length = 2 from rfl]
+example : Foreign.findDefining wEx fbLine (fbLine.inherits.length + 2) [] fr ⟨none, [['k']]⟩
+    = .ok (en, .lit (.str ['h', 'i'] none)) := by
+  simp [Foreign.findDefining, getEn, getFr, getCa, nlLine1, nlLine2, frNe, caNe, show fbLine.default = en from rfl,
+    show fbLine.inherits.length = 1 from rfl]
+example : Foreign.findDefining wEx fbLine (fbLine.inherits.length + 1) [] fr ⟨none, [['k']]⟩ = .panic "fuel" := by
+  simp [Foreign.findDefining, getFr, getCa, nlLine1, frNe, caNe, show fbLine.default = en from rfl,
+    show fbLine.inherits.length = 1 from rfl]
 
 end I18nVerif.PipeInv
